@@ -34,6 +34,11 @@ func profiles() map[string]Profile {
 	p.Snap, p.SnapClose, p.Dump, p.SetColl, p.RmColl, p.Visit, p.SnapRevert, p.Write, p.Image = 8, 5, 10, 3, 2, 4, 3, 2, 3
 	m["C04"] = p
 
+	p.Name = "C04t"                                                               // the same under an encode/decode pair of BeforeItemWrite / AfterItemRead hooks
+	p.Image, p.Write, p.Evict, p.Reopen, p.SnapRead, p.Visit = 0, 0, 10, 6, 10, 8 // file bytes differ from the model's by design: no byte-image observations
+	p.Cfg = func(r *rand.Rand) int { return cbTransform | (r.Intn(4)) }
+	m["C04t"] = p
+
 	p = base
 	p.Name = "C06"
 	p.Visit, p.Set, p.Evict, p.Reopen = 30, 30, 8, 5
